@@ -7,8 +7,10 @@ spec: FMachine (MiniFortran reference machine; ASSOCIATE = true association for 
 impl: loki.transformations.sanitise.associates - do_resolve_associates(start_depth), do_merge_associates(
       max_parents), AssociatesTransformation(merge + resolve), resolve-then-merge.
 Every program belongs to one population (syntactic class, see lib_fm_sanitise.AssocGen) and one option set;
-violation keys are  assoc:<option>:<population>:<failure signature>:<selector kinds of the shrunk program>.
+violation keys are  assoc:<option>:<population>:<failure signature>.
 """
+import time
+
 from .. import lib_fm as F
 from .. import lib_fm_sanitise as S
 
@@ -43,9 +45,9 @@ def apply_opt(routine, opt):
     elif opt == 'M1':
         do_merge_associates(routine, max_parents=1)
     elif opt == 'MR0':
-        AssociatesTransformation(resolve_associates=True, merge_associates=True, start_depth=0).apply(routine)
+        AssociatesTransformation(resolve_associates=True, merge_associates=True, start_depth=0).transform_subroutine(routine)
     elif opt == 'MR1':
-        AssociatesTransformation(resolve_associates=True, merge_associates=True, start_depth=1, max_parents=2).apply(routine)
+        AssociatesTransformation(resolve_associates=True, merge_associates=True, start_depth=1, max_parents=2).transform_subroutine(routine)
     elif opt == 'R1M':
         do_resolve_associates(routine, start_depth=1)
         do_merge_associates(routine)
@@ -77,31 +79,23 @@ def gen_cases(ctx, n):
     return cases
 
 
-def selector_kinds(prog):
-    ks = set()
-    for u in prog['units']:
-        for s in F._flat(u['body']):
-            if s['s'] == 'assoc':
-                for t in s['targets']:
-                    ks.add({'var': 'var', 'arr': 'elem'}.get(t['k'], 'expr'))
-    return f"sel={'+'.join(sorted(ks)) or 'none'};depth={S.assoc_depth(prog)}"
-
-
 def run(ctx):
+    import os
+    dev = int(os.environ.get('VERIF_CASES', '0') or 0)     # development only: fewer cases
     if ctx.replay:
         c = ctx.replay['case']
         cases = [(c['prog'], c['inputs'])]
     else:
-        cases = gen_cases(ctx, 112 if ctx.quick else 1680)
+        cases = gen_cases(ctx, dev or (112 if ctx.quick else 1680))
     results, fails, legal = F.behaviour_check(ctx, 'assoc', cases, transform)
-    recheck = F.make_recheck(ctx, transform)
+    recheck = None if ctx.quick and not ctx.replay else F.make_recheck(ctx, transform)
+    deadline = time.time() + 420
     cells = {}
     for f in fails:
         prog = cases[f[0]][0]
         cells.setdefault((prog['opt'], prog['pop']), []).append(f)
     for (opt, pop), fl in sorted(cells.items()):
-        S.report(ctx, f'assoc:{opt}:{pop}', cases, results, fl, recheck, selector_kinds,
-                 max_groups=2 if ctx.quick else 4, rounds=3 if ctx.quick else 6)
+        S.report(ctx, f'assoc:{opt}:{pop}', cases, results, fl, recheck, deadline)
     per_cell = {}
     changed = 0
     for r in results:
